@@ -350,27 +350,48 @@ theorem accepted_of_inv {cf : CF} {s : Snap} {t : Table} (hd : DistinctIds s) (h
     simp only [hcls, List.any_eq_true]
     exact ⟨e, he, by simp [hks, hcost]⟩
 
-/-- **the loop ends with an accepted table**, from every state that satisfies the invariant -/
-theorem loop_accepted (cf : CF) (s : Snap) (hd : DistinctIds s) (t : Table) (q : List QEntry) (h : Inv cf s t q) :
-    checkTable cf s (loop cf s t q) = true := by
-  fun_induction loop cf s t q with
+/-- a selection rule of the heap: it returns an entry of the queue that is not more expensive than any other -/
+structure IsMinPick (pick : QEntry → List QEntry → QEntry) : Prop where
+  mem : ∀ e q, pick e q ∈ e :: q
+  le : ∀ e q, ∀ x ∈ e :: q, (pick e q).2 ≤ x.2
+
+theorem minEntry_isMinPick : IsMinPick minEntry := ⟨minEntry_mem, minEntry_le⟩
+
+/-- **the loop ends with an accepted table**, from every state that satisfies the invariant — for EVERY selection rule that
+returns a cheapest entry (whichever among equals) -/
+theorem loopP_accepted {pick : QEntry → List QEntry → QEntry} (hp : IsMinPick pick) (cf : CF) (s : Snap)
+    (hd : DistinctIds s) (t : Table) (q : List QEntry) (h : Inv cf s t q) :
+    checkTable cf s (loopP pick cf s t q) = true := by
+  fun_induction loopP pick cf s t q with
   | case1 t => exact accepted_of_inv hd h
-  | case2 t e q' m rest hs ih => exact ih (inv_skip h hs)
+  | case2 t e q' m rest hs ih =>
+    exact ih (inv_skip h hs)
   | case3 t e q' m rest hs hc ih =>
-    -- impossible: a queued entry belongs to a class of the state
     exfalso
-    obtain ⟨_, cl, _, _, hcl, hid, _⟩ := h.qatt m.1 m.2 (minEntry_mem e q')
+    have hm : m ∈ e :: q' := guardPick_mem _ _ _
+    obtain ⟨_, cl, _, _, hcl, hid, _⟩ := h.qatt m.1 m.2 hm
     have := cls_of_mem hd hcl
     rw [hid, hc] at this
     cases this
   | case4 t e q' m rest hs cl hc t' ih =>
     apply ih
     have hn : t.get m.1 = none := by cases hg : t.get m.1 <;> simp_all
-    exact inv_record h (minEntry_mem e q') (minEntry_le e q') hn
+    have hmem : pick e q' ∈ e :: q' := hp.mem e q'
+    have hmm : m = pick e q' := by simp only [m, guardPick, hmem, if_true]
+    have hmin : ∀ x ∈ e :: q', m.2 ≤ x.2 := by rw [hmm]; exact hp.le e q'
+    exact inv_record h (guardPick_mem _ _ _) hmin hn
+
+/-- **`Extractor::new` is correct for every tie-breaking rule of its heap** -/
+theorem dijkstraP_accepted {pick : QEntry → List QEntry → QEntry} (hp : IsMinPick pick) (cf : CF) (s : Snap)
+    (hd : DistinctIds s) : checkTable cf s (dijkstraP pick cf s) = true :=
+  loopP_accepted hp cf s hd _ _ (inv_init cf s)
+
+theorem loop_accepted (cf : CF) (s : Snap) (hd : DistinctIds s) (t : Table) (q : List QEntry) (h : Inv cf s t q) :
+    checkTable cf s (loop cf s t q) = true := loopP_accepted minEntry_isMinPick cf s hd t q h
 
 /-- **`Extractor::new` is correct**: on every state with distinct class ids the table computed by the cost-ordered
 work list is accepted by `checkTable`, for each of the three cost functions -/
 theorem dijkstra_accepted (cf : CF) (s : Snap) (hd : DistinctIds s) : checkTable cf s (dijkstra cf s) = true :=
-  loop_accepted cf s hd _ _ (inv_init cf s)
+  dijkstraP_accepted minEntry_isMinPick cf s hd
 
 end SV.Extract
